@@ -211,6 +211,24 @@ def batch_worker(part, sizes):
     d = PromoleculeDensity((zs, sites))
     sw = StockholderWeight.from_arrays(zs[:3], sites[:3], zs[3:], sites[3:])
     sw2 = StockholderWeight.from_arrays(zs[3:], sites[3:], zs[:3], sites[:3])
+    # special values: a batch in which points REPEAT (a probe revisited, a closed path, a padded array) in no particular order, the whole
+    # batch one point repeated, a sorted and a reverse-sorted batch - every row is answered for the point it holds
+    base12 = pts[:12]
+    r12 = np.asarray(d.rho(base12), dtype=np.float64)
+    w12 = np.asarray(sw.weights(base12), dtype=np.float64)
+    for rname, idx in (("repeats", [3, 1, 3, 0, 2, 1, 11, 5, 5, 7]), ("one point repeated", [4] * 9), ("sorted", list(np.lexsort(base12.T[::-1]))), ("reverse-sorted", list(np.lexsort(base12.T[::-1])[::-1])),
+                       ("first = last", [0, 5, 8, 2, 0]), ("adjacent duplicates", [6, 6, 2, 2, 9, 9])):
+        part.ev()
+        part.tr(2)
+        q = np.ascontiguousarray(base12[idx])
+        try:
+            gr = np.asarray(d.rho(q), dtype=np.float64)
+            gw = np.asarray(sw.weights(q), dtype=np.float64)
+        except Exception as e:
+            part.fail("batch-raise", "evaluation of a batch with %s raised %r" % (rname, e), {"kind": "batch", "N": 12})
+            continue
+        if gr.shape != (len(idx),) or not (np.abs(gr - r12[idx]) <= 1e-6 * np.abs(r12[idx])).all() or not (np.abs(gw - w12[idx]).max() <= 1e-6):
+            part.fail("batch-dependence:repeated-points", "rho / weights of a batch with %s are not, row by row, the values of the points in it" % rname, {"kind": "batch", "N": 12})
     nmax = max(sizes)
     ref_rho = np.concatenate([np.asarray(d.rho(pts[i:i + 1000]), dtype=np.float64) for i in range(0, nmax, 1000)])[:nmax]
     ref_w = np.concatenate([np.asarray(sw.weights(pts[i:i + 1000]), dtype=np.float64) for i in range(0, nmax, 1000)])[:nmax]
